@@ -30,9 +30,11 @@ pub struct World {
     pub entropy_calls: u64,
     pub now_unix: i64,
     pub clock_reads: u64,
-    /// The monotonic clock of the simulated process (nanoseconds): starts at a seed-dependent "time
-    /// since boot", advances by 1 microsecond per reading and by the simulated network's latency.
+    /// Simulated part of the process's monotonic clock (nanoseconds): a seed-dependent "time since
+    /// boot" plus the latency of the simulated network so far; real elapsed time is added on reading.
     pub mono_ns: u64,
+    /// the real monotonic clock when this simulated process started
+    pub real_mono_start_ns: u64,
     /// decides the latency of each simulated request of this process (not the entropy stream)
     pub latency_seed: u64,
     pub requests_timed: u64,
@@ -53,6 +55,7 @@ impl World {
             now_unix: 0,
             clock_reads: 0,
             mono_ns: 0,
+            real_mono_start_ns: 0,
             latency_seed: 0,
             requests_timed: 0,
             pid: 4242,
@@ -224,10 +227,12 @@ pub unsafe extern "C" fn clock_gettime(clk: libc::clockid_t, ts: *mut libc::time
         return 0;
     }
     if in_sim() && !ts.is_null() && (clk == libc::CLOCK_MONOTONIC || clk == libc::CLOCK_MONOTONIC_RAW || clk == libc::CLOCK_MONOTONIC_COARSE || clk == libc::CLOCK_BOOTTIME) {
+        // simulated offsets (seed-dependent start, latency of the simulated network) on top of real
+        // elapsed time: code that WAITS for a timer must see time pass, or it would never wake up
+        let real = real_monotonic_ns();
         let ns = with_world(|w| {
             w.clock_reads += 1;
-            w.mono_ns += 1_000;
-            w.mono_ns
+            w.mono_ns + real.saturating_sub(w.real_mono_start_ns)
         });
         (*ts).tv_sec = (ns / 1_000_000_000) as libc::time_t;
         (*ts).tv_nsec = (ns % 1_000_000_000) as libc::c_long;
@@ -1427,4 +1432,19 @@ pub fn simulated_request_latency() {
         let ms = 1 + crate::prng::mix(w.latency_seed, w.requests_timed, 0x1A7E) % 300;
         w.mono_ns += ms * 1_000_000;
     });
+}
+
+pub fn real_monotonic_ns() -> u64 {
+    let mut ts = libc::timespec { tv_sec: 0, tv_nsec: 0 };
+    unsafe {
+        match real!("clock_gettime", unsafe extern "C" fn(libc::clockid_t, *mut libc::timespec) -> c_int) {
+            Some(f) => {
+                f(libc::CLOCK_MONOTONIC, &mut ts);
+            }
+            None => {
+                libc::syscall(libc::SYS_clock_gettime, libc::CLOCK_MONOTONIC, &mut ts);
+            }
+        }
+    }
+    ts.tv_sec as u64 * 1_000_000_000 + ts.tv_nsec as u64
 }
